@@ -81,7 +81,7 @@ pub fn decode_book_case(data: &[u8]) -> arbitrary::Result<BookCase> {
         };
         ops.push(op);
     }
-    Ok(BookCase { tick, levels, trading, t0, tie, ops, drain: true, quiet: quiet_mask(data) })
+    Ok(BookCase { tick, levels, trading, t0, tie, ops, drain: true, quiet: quiet_mask(data), bulk: vec![] })
 }
 
 /// quiet operations / steps for fuzz inputs: a function of the whole input (a third of the inputs get a mask), so
